@@ -609,6 +609,7 @@ type c13Gen struct {
 	data   []string        // non-YAML data files present in the package
 	inTmpl bool            // the document being generated is part of a .gotmpl file
 	exotic bool            // write (some) phase annotations in unusual but exact YAML forms
+	ownDef string          // a `define` to be placed at the top of the next ordinary template file
 }
 
 func (g *c13Gen) pick(xs ...string) string { return xs[g.rng.Intn(len(xs))] }
@@ -806,6 +807,12 @@ func (g *c13Gen) templateYAML(helpers []string, otherPaths []string) string {
 	g.inTmpl = true
 	defer func() { g.inTmpl = false }()
 	var b strings.Builder
+	if g.ownDef != "" {
+		// a `define` in an ORDINARY template file (not a `_helper`): every template of the package may
+		// use it, whichever file is parsed or executed first
+		b.WriteString(g.ownDef)
+		g.ownDef = ""
+	}
 	nd := 1 + g.rng.Intn(3)
 	for i := 0; i < nd; i++ {
 		if i > 0 {
@@ -821,7 +828,12 @@ func (g *c13Gen) templateYAML(helpers []string, otherPaths []string) string {
 				`{{ hasKey .config "mark" | quote }}{{ $_ := set .config "mark" "1" }}`,
 				`{{ get .config "mark" | default "none" | quote }}{{ $_ := set .config "mark" .package.metadata.name }}`,
 				`{{ keys .config | sortAlpha | join "," | quote }}{{ $_ := mergeOverwrite .config (dict "extra" "1") }}`,
-				`{{ hasKey .images "probe" | quote }}{{ $_ := set .images "probe" "x" }}`)))
+				`{{ hasKey .images "probe" | quote }}{{ $_ := set .images "probe" "x" }}`,
+				// ... an ELEMENT of a list, a map below it, a map in a list in a map in a list
+				`"{{ range .config.backends }}{{ get . "port" | default "none" }},{{ end }}"{{ range .config.backends }}{{ $_ := set . "port" "8080" }}{{ end }}`,
+				`"{{ range .config.backends }}{{ .opts.tls }},{{ end }}"{{ range .config.backends }}{{ $_ := set .opts "tls" "changed" }}{{ end }}`,
+				`"{{ range .config.backends }}{{ range (get . "tags" | default list) }}{{ .k }}{{ end }},{{ end }}"{{ range .config.backends }}{{ range (get . "tags" | default list) }}{{ $_ := set . "k" "changed" }}{{ end }}{{ end }}`,
+				`"{{ (index .config.backends 0).name }}"{{ $_ := unset (index .config.backends 0) "name" }}{{ $_ := set (index .config.backends 0) "name" "renamed" }}`)))
 		case k == 0:
 			b.WriteString(g.objDoc("-{{ .package.metadata.name }}", `{{ .config.greeting | upper | quote }}`))
 		case k == 1:
@@ -929,6 +941,11 @@ func (g *c13Gen) scenario() *c13Scn {
 		s.Config["extra"] = map[string]any{"x": 1}
 	}
 	s.Config["phase"] = g.phases[0] // what templated phase annotations evaluate to
+	// lists of maps, maps below lists below maps: everything a template can change in place
+	s.Config["backends"] = []any{
+		map[string]any{"name": "a", "opts": map[string]any{"tls": false}},
+		map[string]any{"name": "b", "opts": map[string]any{"tls": true}, "tags": []any{map[string]any{"k": "v"}}},
+	}
 	g.conds = nil
 	for i := 0; i < g.rng.Intn(3); i++ {
 		g.conds = append(g.conds, c13Cond{N: fmt.Sprintf("c%d", i), E: g.pick("config.flag", "!config.flag", `config.size == "big"`, "true")})
@@ -1019,6 +1036,11 @@ func (g *c13Gen) scenario() *c13Scn {
 			if g.bad["doublesuffix"] && g.chance(0.5) {
 				tp += ".gotmpl"
 			}
+			if g.chance(0.35) {
+				name, def := g.helper()
+				g.ownDef = def
+				helpers = append(helpers, name) // (templates generated from here on may use it; so may earlier files' later twins)
+			}
 			files = append(files, c13File{P: tp, C: g.templateYAML(helpers, yamlPaths)})
 			if g.chance(0.15) { // a plain file shadowed by the template output
 				files = append(files, c13File{P: p, C: g.plainYAML()})
@@ -1057,6 +1079,28 @@ func c13Table() []*c13Scn {
 				c13File{P: c13PathPool[i], C: c13Doc("x", "one", "")},
 				c13File{P: c13PathPool[j], C: c13Doc("y", "one", "") + "---\n" + c13Doc("z", "two", "")}))
 		}
+	}
+	// the context handed to a template is its own, all the way down: four template files that each read
+	// a place of the context and then change it in place (a key of a map, of a map below a map, of an
+	// ELEMENT of a list, of a map in a list in a map in a list): whatever the execution order, every
+	// one of them reads the original value
+	deep := map[string]any{"flag": true, "size": "big", "greeting": "hi", "opts": map[string]any{"inner": map[string]any{"v": "orig"}},
+		"backends": []any{map[string]any{"name": "a", "opts": map[string]any{"tls": "orig"}, "tags": []any{map[string]any{"k": "orig"}}}}}
+	for _, body := range []string{
+		`{{ get .config "mark" | default "orig" | quote }}{{ $_ := set .config "mark" "changed" }}`,
+		`{{ .config.opts.inner.v | quote }}{{ $_ := set .config.opts.inner "v" "changed" }}`,
+		`"{{ range .config.backends }}{{ get . "port" | default "orig" }}{{ end }}"{{ range .config.backends }}{{ $_ := set . "port" "changed" }}{{ end }}`,
+		`"{{ range .config.backends }}{{ .opts.tls }}{{ end }}"{{ range .config.backends }}{{ $_ := set .opts "tls" "changed" }}{{ end }}`,
+		`"{{ range .config.backends }}{{ range .tags }}{{ .k }}{{ end }}{{ end }}"{{ range .config.backends }}{{ range .tags }}{{ $_ := set . "k" "changed" }}{{ end }}{{ end }}`,
+		`"{{ (index .config.backends 0).name }}"{{ $_ := set (index .config.backends 0) "name" "changed" }}`,
+	} {
+		var files []c13File
+		for i, p := range []string{"a.yaml.gotmpl", "b.yaml.gotmpl", "a/c.yaml.gotmpl", "d/e.yaml.gotmpl"} {
+			files = append(files, c13File{P: p, C: c13Doc(fmt.Sprintf("x%d", i), "one", "data:\n  v: "+body+"\n")})
+		}
+		sc := base(files...)
+		sc.Config = deep
+		out = append(out, sc)
 	}
 	// phase order: objects named for phases in every order of the manifest
 	perms := [][]string{{"one", "two", "three"}, {"one", "three", "two"}, {"two", "one", "three"}, {"two", "three", "one"}, {"three", "one", "two"}, {"three", "two", "one"}}
